@@ -32,7 +32,7 @@ def run(ctx):
 
     # ---- design level -------------------------------------------------------------------------
     res = tlc.run("BrownianValues", timeout=600, workers=2, cfg_text=(
-        f"SPECIFICATION Spec\nCONSTANTS LMax = {12 if quick else 24} GridT = {5 if quick else 7}\n"
+        f"SPECIFICATION Spec\nCONSTANTS LMax = {12 if quick else 24} GridT = {5 if quick else 7} LinkK = 4\n"
         "INVARIANT InvLemma\nINVARIANT InvStats\nCHECK_DEADLOCK FALSE\n"))
     ctx.add_tlc(res, "BrownianValues: single-split lemma (child sum, H merge), Chen identities of the covariance")
     if not res.ok:
